@@ -6,7 +6,7 @@
    (2) the reference SLD interpreter used as the oracle (ModelSLD.v). *)
 From Coq Require Import NArith ZArith List Bool Arith Sorting.Sorted.
 From PL.C14 Require Import ModelUnify ProofsUnify.
-From PL.C13 Require Import ModelIndex ProofsIndex ModelSLD ProofsSLD.
+From PL.C13 Require Import ModelIndex ProofsIndex ModelSLD ProofsSLD ProofsSLDMono ProofsSLDComplete.
 Import ListNotations.
 
 (* ---------------- ClauseIndex ---------------- *)
@@ -75,6 +75,77 @@ Theorem C13_sld_findall_order : forall n P pat g res nv l,
 Proof. exact findall_unfold. Qed.
 Print Assumptions C13_sld_findall_order.
 
+(* ---- fuel monotonicity (ProofsSLDMono.v; ALL goals, negation and findall included):
+   an outcome other than OutOfFuel — an answer list or Floundered — is kept by every larger fuel *)
+Theorem C13_sld_fuel_monotone : forall P n m g nv l,
+  solve n P g nv = Ans l -> n <= m -> solve m P g nv = Ans l.
+Proof. exact solve_mono_ans. Qed.
+Print Assumptions C13_sld_fuel_monotone.
+
+Theorem C13_sld_fuel_monotone_outcome : forall P n m g nv, n <= m ->
+  solve n P g nv <> OutOfFuel -> solve m P g nv = solve n P g nv.
+Proof. exact solve_mono. Qed.
+Print Assumptions C13_sld_fuel_monotone_outcome.
+
+Theorem C13_sld_answers_fuel_monotone : forall P n m q l,
+  answers n P q = Ans l -> n <= m -> answers m P q = Ans l.
+Proof. exact answers_mono. Qed.
+Print Assumptions C13_sld_answers_fuel_monotone.
+
+(* two finished runs agree whatever their fuels: "the answer list of g" is well defined *)
+Theorem C13_sld_fuel_irrelevant : forall P n m g nv,
+  solve n P g nv <> OutOfFuel -> solve m P g nv <> OutOfFuel -> solve n P g nv = solve m P g nv.
+Proof. exact solve_fuel_irrelevant. Qed.
+Print Assumptions C13_sld_fuel_irrelevant.
+
+(* ---- completeness for definite programs relative to a finished run (ProofsSLDComplete.v).
+   [gbound g nv]: every variable of g is below nv (the renaming-apart discipline;
+   [answers] establishes it for the query).  If the run returns the list l, then
+   every instance th of g that holds in the least model is an instance of a
+   returned answer: some r in l and de with  de o (fst r) = th  on all variables < nv. *)
+Theorem C13_sld_complete : forall P, definite_program P ->
+  forall n g nv l, definite g = true -> gbound g nv -> solve n P g nv = Ans l ->
+  forall th, holds P (ginst th g) ->
+  exists r, In r l /\ exists de, forall v, (v < nv)%N -> inst de (apply (fst r) (TVar v)) = th v.
+Proof. exact solve_complete. Qed.
+Print Assumptions C13_sld_complete.
+
+(* every instance of the query in the least model (in particular every ground
+   one: the least Herbrand model) is an instance of some returned answer *)
+Theorem C13_sld_answers_complete : forall P q n l, definite_program P ->
+  answers n P q = Ans l ->
+  forall th, holds P (GCall (inst th q)) -> exists a de, In a l /\ inst de a = inst th q.
+Proof. exact answers_complete. Qed.
+Print Assumptions C13_sld_answers_complete.
+
+(* with soundness: on a finished run the instances of the answers ARE the
+   instances of the query that hold in the least model — the set the
+   correspondence with the tabled engine compares *)
+Theorem C13_sld_answers_exact : forall P q n l, definite_program P ->
+  answers n P q = Ans l ->
+  forall t, (exists a de, In a l /\ t = inst de a) <->
+            (holds P (GCall t) /\ exists th, t = inst th q).
+Proof. exact answers_exact. Qed.
+Print Assumptions C13_sld_answers_exact.
+
+(* definite goals never flounder, so for them "finished" = "returned an answer list" *)
+Theorem C13_sld_definite_never_flounders : forall P, definite_program P ->
+  forall n g nv, definite g = true -> solve n P g nv <> Floundered.
+Proof. exact definite_never_flounders. Qed.
+Print Assumptions C13_sld_definite_never_flounders.
+
+(* answers are well formed: fresh-variable counter grows, no variable >= it is introduced *)
+Theorem C13_sld_answers_wellformed : forall P, definite_program P ->
+  forall n g nv l, definite g = true -> gbound g nv -> solve n P g nv = Ans l ->
+  forall r, In r l ->
+  (nv <= snd r)%N /\ forall v, (v < nv)%N -> forall w, In w (tvars (apply (fst r) (TVar v))) -> (w < snd r)%N.
+Proof. exact solve_wf. Qed.
+Print Assumptions C13_sld_answers_wellformed.
+
+(* NOT proved: termination criteria (when some fuel suffices), completeness with
+   negation / findall / \= (not in the definite fragment), and
+   C13_tabled_is_lfp (the tabled engine is tied to this reference by correspondence only). *)
+
 (* ---- non-vacuity ---- *)
 Definition a_ := TApp (SAtom 10) [].
 Definition i_ z := TApp (SInt z) [].
@@ -89,3 +160,29 @@ Proof. vm_compute. reflexivity. Qed.
 Example C13_ex_index_fixed :
   find_fixed [Some 0%N; None] (load 0 [[None; Some 1%N]; [Some 0%N; Some 2%N]; [None; Some 4%N]] empty) = [0; 1; 2].
 Proof. vm_compute. reflexivity. Qed.
+
+(* definite, recursive, terminating: app([],L,L). app([H|T],L,[H|R]) :- app(T,L,R).
+   ?- app(X,Y,[a,b]) has the three splits; app(X,[Z],[W]) returns a non-ground answer *)
+Definition b_ := TApp (SAtom 13) [].
+Definition app_ x y z := TApp (SAtom 14) [x; y; z].
+Definition prog_app : program :=
+  [(app_ t_nil (TVar 0) (TVar 0), GTrue);
+   (app_ (t_cons (TVar 0) (TVar 1)) (TVar 2) (t_cons (TVar 0) (TVar 3)), GCall (app_ (TVar 1) (TVar 2) (TVar 3)))].
+Example C13_ex_app_definite : definite_program prog_app.
+Proof. intros c [<-|[<-|[]]]; reflexivity. Qed.
+Example C13_ex_app_answers :
+  answers 5 prog_app (app_ (TVar 0) (TVar 1) (mklist [a_; b_])) =
+  Ans [app_ t_nil (mklist [a_; b_]) (mklist [a_; b_]);
+       app_ (mklist [a_]) (mklist [b_]) (mklist [a_; b_]);
+       app_ (mklist [a_; b_]) t_nil (mklist [a_; b_])] /\
+  answers 3 prog_app (app_ (TVar 0) (TVar 1) (mklist [a_; b_])) = OutOfFuel.
+Proof. vm_compute. split; reflexivity. Qed.
+(* hence (C13_sld_answers_exact) app(X,Y,[a,b]) has exactly these three instances in the least model;
+   a non-ground answer covers its ground instances: *)
+Example C13_ex_app_nonground :
+  exists a, answers 5 prog_app (app_ t_nil (TVar 0) (TVar 1)) = Ans [a] /\
+            exists de, inst de a = app_ t_nil (mklist [b_]) (mklist [b_]).
+Proof.
+  eexists. split; [vm_compute; reflexivity|].
+  exists (fun _ => mklist [b_]). vm_compute. reflexivity.
+Qed.
